@@ -323,7 +323,7 @@ func C10(r *h.Run) {
 	// stream is created): the timeout announced must be the time remaining when the request
 	// leaves, not when the stream object was made
 	for _, proto := range []string{"connect", "grpc", "grpcweb"} {
-		for _, kind := range []string{"client", "bidi"} {
+		for _, kind := range []string{"client", "bidi", "client-no-message", "bidi-no-message"} {
 			hname := "Connect-Timeout-Ms"
 			var opts []connect.ClientOption
 			if proto == "grpc" {
@@ -343,12 +343,24 @@ func C10(r *h.Run) {
 			deadline = time.Now().Add(2 * time.Second)
 			ctx, cancel := context.WithDeadline(context.Background(), deadline)
 			const idle = 400 * time.Millisecond
+			switch kind {
+			case "client-no-message": // the request is made by closing the request side, not by a Send
+				st := client.CallClientStream(ctx)
+				time.Sleep(idle)
+				_, _ = st.CloseAndReceive()
+			case "bidi-no-message":
+				st := client.CallBidiStream(ctx)
+				time.Sleep(idle)
+				_ = st.CloseRequest()
+				_, _ = st.Receive()
+				_ = st.CloseResponse()
+			}
 			if kind == "client" {
 				st := client.CallClientStream(ctx)
 				time.Sleep(idle)
 				_ = st.Send(&wrapperspb.BytesValue{})
 				_, _ = st.CloseAndReceive()
-			} else {
+			} else if kind == "bidi" {
 				st := client.CallBidiStream(ctx)
 				time.Sleep(idle)
 				_ = st.Send(&wrapperspb.BytesValue{})
